@@ -22,7 +22,7 @@ from . import core
 from . import e1_threads as E1
 
 PROP = "C12"
-RUNS = {"quick": 3000, "thorough": 60000}
+RUNS = {"quick": 2000, "thorough": 40000}
 WALL_CAP = {"quick": 300.0, "thorough": 3000.0}
 CORPUS = {"quick": (60, 30000), "thorough": (300, 100000)}
 
@@ -175,7 +175,35 @@ def gen_cell(rseed: int, tier: str) -> Dict[str, Any]:
     return cell
 
 
-def execute(cell: Dict[str, Any]) -> Dict[str, Any]:
+def execute(cells: Any) -> Dict[str, Any]:
+    """cells: one cell or a list of cells executed one after the other in the
+    same process, directory and file name (a history: the file is rewritten)."""
+    if isinstance(cells, dict):
+        cells = [cells]
+    tmp = tempfile.mkdtemp(prefix="verif-e2-")
+    out: Dict[str, Any] = {"counters": {}, "violations": [], "results": {}}
+    try:
+        for k, cell in enumerate(cells):
+            c = dict(cell)
+            c["fname"] = cells[0]["fname"]
+            r = execute_cell(c, tmp)
+            for key, v in r["counters"].items():
+                out["counters"][key] = out["counters"].get(key, 0) + v
+            for v in r["violations"]:
+                if k > 0:
+                    v = dict(v)
+                    v["signature"] = "second-use:" + v["signature"]
+                    v["detail"] = {"cell": k, **(v["detail"] if isinstance(v["detail"], dict) else {"d": v["detail"]})}
+                out["violations"].append(v)
+            out["results"] = r["results"]
+            if k > 0:
+                out["counters"]["fault:same-path-rewritten"] = out["counters"].get("fault:same-path-rewritten", 0) + 1
+    finally:
+        shutil.rmtree(tmp, ignore_errors=True)
+    return out
+
+
+def execute_cell(cell: Dict[str, Any], tmp: str) -> Dict[str, Any]:
     st = E1.setup_tree()
     import pydbml.parser.parser as pmod
     PyDBML = st["PyDBML"]
@@ -187,8 +215,7 @@ def execute(cell: Dict[str, Any]) -> Dict[str, Any]:
 
     text = cell["text"]
     data = (b"\xef\xbb\xbf" if cell["bom"] else b"") + text.encode("utf8")
-    stext = ("﻿" if cell["bom"] else "") + text
-    tmp = tempfile.mkdtemp(prefix="verif-e2-")
+    stext = ("\ufeff" if cell["bom"] else "") + text
     fs = SimFS(cell, stats)
     had_open = "open" in vars(pmod)
     saved_open = vars(pmod).get("open")
@@ -311,7 +338,6 @@ def execute(cell: Dict[str, Any]) -> Dict[str, Any]:
             pmod.open = saved_open
         elif "open" in vars(pmod):
             del pmod.open
-        shutil.rmtree(tmp, ignore_errors=True)
     return {"counters": stats, "violations": violations, "results": results}
 
 
@@ -338,7 +364,14 @@ class E2Driver:
     def run_one(self, i: int, seed: int, tier: str, hashseed: str) -> Dict[str, Any]:
         rseed = core.run_seed(seed, PROP, i)
         cell = gen_cell(rseed, tier)
-        res = execute(cell)
+        cells = [cell]
+        if core.stream(rseed, "history").random() < 0.4:
+            # a second document saved under the same path afterwards (history over the same file name)
+            c2 = gen_cell(core.run_seed(seed, PROP + "/second", i), tier)
+            c2["wrong_types"] = []
+            cells.append(c2)
+            cell = c2
+        res = execute(cells)
         out: Dict[str, Any] = {"counters": res["counters"], "distinct": {}}
         key = core.digest([cell["doc"], cell["bom"], cell["ap"], cell["rend"], cell["chunk"], cell["bufsize"],
                            cell["default_encoding"], cell["real_fs"], cell["eio_at"], cell["file_encoding_by_caller"]])
@@ -352,14 +385,14 @@ class E2Driver:
         if res["violations"]:
             v = res["violations"][0]
             out["violation"] = {"engine": "E2", "property": PROP, "seed": seed, "run": i, "run_seed": rseed,
-                                "hashseed": hashseed, "tier": tier, "cell": cell, "violation": v,
+                                "hashseed": hashseed, "tier": tier, "cells": cells, "violation": v,
                                 "all_violations": [x["signature"] for x in res["violations"]], "ops": [None]}
         return out
 
     def replay(self, payload: Dict[str, Any]) -> Optional[Dict[str, Any]]:
         def fn() -> Dict[str, Any]:
             E1.setup_tree()
-            r = execute(payload["cell"])
+            r = execute(payload["cells"] if "cells" in payload else payload["cell"])
             return {"violations": r["violations"]}
         res = core.fork_run(fn, 120.0)
         if res.get("harness"):
@@ -376,14 +409,24 @@ class E2Driver:
         fails in the same way."""
         import copy
         sig = payload["violation"]["signature"]
-        cell = copy.deepcopy(payload["cell"])
+        cells = copy.deepcopy(payload["cells"])
         tests = 0
 
-        def fails(c: Dict[str, Any]) -> bool:
+        def fails_cells(cs: List[Dict[str, Any]]) -> bool:
             nonlocal tests
             tests += 1
-            v = self.replay({"cell": c, "violation": {"signature": sig}})
+            v = self.replay({"cells": cs, "violation": {"signature": sig}})
             return bool(v) and v["signature"] == sig
+
+        if len(cells) > 1 and fails_cells(cells[:1]):
+            cells = cells[:1]
+        elif len(cells) > 1 and not sig.startswith("second-use:") and fails_cells(cells[1:]):
+            cells = cells[1:]
+        prefix = cells[:-1]
+        cell = cells[-1]
+
+        def fails(c: Dict[str, Any]) -> bool:
+            return fails_cells(prefix + [c])
 
         for k, simple in (("wrong_types", []), ("bom", False), ("ap", False), ("rend", "default"),
                           ("chunk", 1 << 20), ("bufsize", 8192), ("eio_at", None), ("real_fs", False),
@@ -394,8 +437,8 @@ class E2Driver:
                 if fails(c):
                     cell = c
         out = dict(payload)
-        out["cell"] = cell
-        out["violation"] = self.replay({"cell": cell, "violation": {"signature": sig}}) or payload["violation"]
+        out["cells"] = prefix + [cell]
+        out["violation"] = self.replay({"cells": out["cells"], "violation": {"signature": sig}}) or payload["violation"]
         out["minimiser_tests"] = tests
         return out
 
